@@ -17,7 +17,9 @@ class C18(Check):
                          "model_query_meets_spec", "model_access_meets_spec", "model_grant_meets_spec",
                          "converse_fails_by_overrestriction",
                          "unrepaired_targets_subset_allowed_of_isoVisit", "unrepaired_shared_frame_returns_forbidden",
-                         "unrepaired_shared_frame_depends_on_visit_order"]
+                         "unrepaired_shared_frame_depends_on_visit_order",
+                         "joined_objects_allowed", "authenticate_header_only_with_password", "authenticate_cn_only_with_cn",
+                         "model_auth_meets_spec"]
     technique = ("Lean 4 proof (decision logic stated outright: every object returned on every addressing path satisfies Allowed; "
                  "rejection before any provider call; forbidden name => error; matcher = declarative wildcard language) over a hand-written "
                  "model of FilterUtility::HasPermission/GetFilterTargets; correspondence by differential execution of the real functions "
@@ -34,7 +36,9 @@ class C18(Check):
     level_note = ("Negative controls: see NEGATIVE_CONTROLS in checks/c18.py and corpus/C18/negative_controls/*.diff (refactoring, message "
                   "texts, iteration order / OR order / bookkeeping, guard spellings, translator inputs) - none is reported. Trusted: Lean kernel (+ propext, Classical.choice, Quot.sound); the model's correspondence being sampled; harness/driver; the "
                   "harness's own evaluation of the generated filter expressions (truth tables are oracle inputs). Not modelled: the DSL "
-                  "evaluating the filters, HTTP parsing/authentication (ApiUser::GetByAuthHeader/GetByClientCN), "
+                  "evaluating the filters, HTTP parsing, TLS/certificate verification and Base64 decoding (OpenSSL; the decoder's answer is an oracle "
+                  "input of ApiUser::GetByAuthHeader's model; question Q-C18b: an empty certificate CN equals the client_cn of every user that has "
+                  "none, GetByClientCN(\"\") returns such a user - whether a verified certificate can carry an empty CN is outside the model), "
                   "the create, config, events and debug handlers (their permission strings are in the generated table and used in direct calls, "
                   "but they are not dispatched); for templates/variables/types/status only grant/refusal is compared (their targets are not "
                   "config objects); actions other than reschedule-check/remove-acknowledgement are not dispatched.")
@@ -77,6 +81,8 @@ class C18(Check):
         "filters collected in a vector and OR-ed newest-first, an extra bookkeeping counter (alarmed first: join comparison at seed 2)",
         "nc4_guards: early returns instead of else branches and vice versa in EvaluateFilter, HasPermission, CheckPermission, "
         "GetFilterTargets; `count()==0` for `find()==end()`; nested ifs for the two type checks",
+        "nc6_auth_joins: GetByAuthHeader as a chain of early returns that KEEPS the empty-password refusal, GetByClientCN with an index loop, "
+        "the join verdict cache of ObjectQueryHandler keyed by (type name, object name) instead of the address",
         "nc5_translator: TypeQueryHandler moved into variablequeryhandler.cpp with its `user` parameter renamed, a new handler with a "
         "permission string of its own (`ping`), a permission assigned through a local String, changed spacing, a commented-out "
         "assignment, a call split over two lines",
@@ -134,6 +140,16 @@ class C18(Check):
         """(header, ops) of the case a driver message refers to; M lines (before the first case) stand alone."""
         n, k = int(kv["line"]), int(kv["case"])
         line = self._line(save, n)
+        if line[:2] in ("B ", "N "):
+            # an authentication query stands with the user inventory (nearest preceding K line)
+            hdr = ""
+            with open(save) as f:
+                for i, l in enumerate(f, 1):
+                    if i >= n:
+                        break
+                    if l.startswith("K "):
+                        hdr = l.rstrip("\n")
+            return ([hdr] if hdr else []), [line]
         if line.startswith("M ") or k == 0:
             return [], [line]
         case = runner.extract_case(save, k)
@@ -211,6 +227,11 @@ class C18(Check):
                     "queries of every shape (single name incl. array form, plural list incl. empty and duplicates, type+filter incl. fast-path "
                     "shapes, filter_vars, non-compiling and error-raising filters, type only, nothing, mixtures, invalid/wrong types, two-type "
                     "action queries), each run with the default provider and with a logging provider, plus a per-object access table, plus 1-3 "
+                    "authentication: 2000/20000 user inventories (users without password, passwords with a colon, equal client_cn) x ~40 "
+                    "Authorization headers (right/empty/prefix/longer/wrong password, no colon, other scheme, no blank, undecodable) through "
+                    "ApiUser::GetByAuthHeader and 6 CNs through GetByClientCN; join cases (1/6 of the cases): hosts, services, endpoints and "
+                    "time periods sharing names, per-type permissions, GET /v1/objects/... with joins=[command_endpoint, check_period, host] "
+                    "(observed: which joined objects were serialized); "
                     "whole HTTP requests (GET/POST/DELETE /v1/objects/<type>[/<name>] with URL parameters and JSON body, joins; POST "
                     "/v1/actions/reschedule-check|remove-acknowledgement; GET /v1/templates/hosts, /v1/variables, /v1/types, /v1/status/..., "
                     "POST /v1/console/execute-script) dispatched through HttpHandler::ProcessRequest (observed: status, result names, "
@@ -224,7 +245,7 @@ class C18(Check):
 
     def replay(self, path, harness, driver):
         data = json.load(open(path))
-        lines = [l for l in data.get("case", []) if l[:2] in ("C ", "P ", "Q ", "A ", "M ", "H ")]
+        lines = [l for l in data.get("case", []) if l[:2] in ("C ", "P ", "Q ", "A ", "M ", "H ", "G ", "K ", "B ", "N ")]
         f = self.work("replay.ops")
         with open(f, "w") as fh:
             fh.write("\n".join(runner.strip_obs(l) for l in lines) + "\n")
